@@ -611,14 +611,24 @@ pub(crate) enum Tag {
 }
 
 impl Tag {
-    /// Get the tag field name, applying inflection if using inflectable variant
-    pub(crate) fn field_name(&self, root_attrs: &RootAttributes) -> String {
+    /// Get the tag field name as it has to be emitted when `style` is the name style in force
+    /// (the enum's own `rename_all`, if any, takes precedence over an inherited style).
+    ///
+    /// An inflectable name respects `prefix`/`exact_prefix` and the style exactly like a field
+    /// name does; an exact name is emitted verbatim whatever the style.
+    pub(crate) fn field_name(&self, root_attrs: &RootAttributes, style: NameStyle) -> String {
         match self {
-            Tag::Inflectable { name, .. } => root_attrs
-                .prefix
-                .as_ref()
-                .map(|p| p.apply(name, root_attrs.rename_all))
-                .unwrap_or_else(|| root_attrs.rename_all.apply(name)),
+            Tag::Inflectable { name, .. } => {
+                let style = match root_attrs.rename_all {
+                    NameStyle::Preserve => style,
+                    own => own,
+                };
+                root_attrs
+                    .prefix
+                    .as_ref()
+                    .map(|p| p.apply(name, style))
+                    .unwrap_or_else(|| style.apply(name))
+            }
             Tag::Exact { name, .. } => name.clone(),
         }
     }
